@@ -122,6 +122,40 @@ def make_sd(case):
     return SuccessionDiagram.from_rules(case["bnet"], config=cfg)
 
 
+def reorder_network(bn, order):
+    """the same network with its variables declared in the given order (AEON API keeps it)"""
+    from biodivine_aeon import BooleanNetwork
+
+    out = BooleanNetwork(variables=list(order))
+    for reg in bn.regulations():
+        reg["source"] = bn.get_variable_name(reg["source"])
+        reg["target"] = bn.get_variable_name(reg["target"])
+        out.add_regulation(reg)
+    for name in order:
+        f = bn.get_update_function(name)
+        if f is not None:
+            out.set_update_function(name, str(f))
+    return out
+
+
+def make_sd_ordered(case):
+    """like make_sd, but honours case['order'] (a permutation of variable positions)"""
+    from biobalm import SuccessionDiagram
+    from biodivine_aeon import BooleanNetwork
+
+    if not case.get("order"):
+        return make_sd(case)
+    cfg = SuccessionDiagram.default_config()
+    cfg["max_motifs_per_node"] = case.get("max_motifs", 100000)
+    for k, v in case.get("cfg", {}).items():
+        cfg[k] = v
+    bn = BooleanNetwork.from_bnet(case["bnet"])
+    names = bn.variable_names()
+    order = [names[i % len(names)] for i in case["order"]]
+    order = list(dict.fromkeys(order)) + [x for x in names if x not in order]
+    return SuccessionDiagram(reorder_network(bn, order), cfg)
+
+
 def resolve_target(tgt, ni):
     sp = {}
     for i, v in tgt:
